@@ -139,7 +139,7 @@ CHECKS["C09"] = {
             "on the release and the overflow-checked build. distinct_nontrivial = distinct threshold points + 7-byte ties + "
             "(config, stream, iteration) cells + distribution configs + instrumented signatures.",
     "assumptions": ["RCDT and ApproxExp constants transcribed from PQClean (sanity-checked against the f64 half-Gaussian on every run)", "statistical resolution about 1e-3 relative on cells of mass >= 1e-5 in the quick tier", "centres are taken from |mu| <= 2e4 (the sampler returns an i16; signing uses centres of a few thousand)"],
-    "legs": [{"name": "blocks", "profiles": BOTH}, {"name": "totality", "profiles": BOTH}, {"name": "distribution"}, {"name": "in-situ", "skip_if_violated": True}],
+    "legs": [{"name": "blocks", "profiles": BOTH + ["native"]}, {"name": "totality", "profiles": BOTH}, {"name": "distribution", "profiles": ["release", "native"]}, {"name": "in-situ", "skip_if_violated": True}],
     "technique": "exact differential monitors for the building blocks, panic + logical-step progress monitor under hostile byte streams, goodness-of-fit monitors (chi-square, moments) with alarm thresholds below 1e-6 family-wise, in-situ precondition monitor at a hook",
     "level_text": "Blocks are compared exactly on boundary and random inputs; the distribution is decided statistically with stated resolution; tails are covered only by the exact block monitors.",
     "level_note": "deviations below the statistical resolution and isochrony are not observable",
@@ -215,7 +215,7 @@ CHECKS["C13"] = {
             "errors are reported (about 1e-15 on the unchanged tree, i.e. the tolerance is 2^20 times the observed error). "
             "distinct_nontrivial = table entries + (n, impulse) cells + sizes.",
     "assumptions": ["libm cos/sin accurate to a few ulp for the table reference", "inputs are integer-valued so the exact product is computable"],
-    "legs": [{"name": "table"}, {"name": "accuracy"}, {"name": "cross-size"}],
+    "legs": [{"name": "table"}, {"name": "accuracy", "profiles": ["release", "native"]}, {"name": "cross-size"}],
     "technique": "differential monitor against exact integer arithmetic with the property's error bound; exhaustive table monitor",
     "level_text": "Table complete; accuracy sampled over all sizes with extreme and random inputs in the stated magnitude range.",
     "level_note": "real inputs are dyadic rationals with 20 fractional bits; other reals are covered through linearity",
@@ -539,7 +539,7 @@ for _k, _v in _EXTRA10.items():
     CHECKS[_k]["rule"] += _v
 
 _EXTRA11 = {
-    "C15": " Eleventh round: every pool key is regenerated (4 threads Falcon-512 x 10/40 rounds, 2 threads Falcon-1024) while twenty "
+    "C15": " Eleventh round: every pool key is regenerated (4 threads Falcon-512 x 10 rounds over 6 seeds / 6 rounds over 42 seeds, 2 threads Falcon-1024) while twenty "
            "threads loop the key generator's core at n = 4, 8, 16, and compared with its quiet-time fingerprint.",
     "C17": " Eleventh round: ill-conditioned bases (f, g multiples of (1+x) or (1+x)^2) with alternating (F,G) whose amplitude is chosen from "
            "the exact quotient so that the largest quotient coefficient lands at 2^28.5 .. 2^31.8; a disagreement is attributed to the "
@@ -559,6 +559,17 @@ _EXTRA12 = {
     "C16": " Twelfth round: signatures over reference-selected (salt, message) pairs with many early hash rejections, the salt dictated through the generator hook, judged by the reference.",
 }
 for _k, _v in _EXTRA12.items():
+    CHECKS[_k]["rule"] += _v
+
+_EXTRA13 = {
+    "C09": " Thirteenth round: the blocks and distribution legs also run on a build compiled with -C target-cpu=native (FMA, AVX2 enabled): "
+           "code selected by cfg(target_feature) exists only in such builds.",
+    "C01": " Thirteenth round: 200 (320) threads sharing one key sign 12 (16) MiB windows of one buffer, three each (Falcon-1024: 96 (200) threads, 8 (16) MiB): "
+           "hundreds of sign calls are inside the hashing step at once (in-flight counter in the evidence).",
+    "C14": " Thirteenth round: the reference scan (128e6 candidates per quick run) also keeps inputs whose stream contains two equal adjacent aligned 4-byte words.",
+    "C13": " Thirteenth round: the accuracy leg also runs on the -C target-cpu=native build; inverse transforms of spectra whose results are subnormal.",
+}
+for _k, _v in _EXTRA13.items():
     CHECKS[_k]["rule"] += _v
 
 NOT_APPLICABLE = {}
